@@ -22,6 +22,9 @@ impl Rng {
         self.next() % n
     }
     pub fn range(&mut self, lo: u64, hi_incl: u64) -> u64 {
+        if hi_incl < lo {
+            return lo;
+        }
         lo + self.below(hi_incl - lo + 1)
     }
     pub fn chance(&mut self, num: u64, den: u64) -> bool {
